@@ -189,6 +189,10 @@ func racing(seed uint64, rounds int, stats map[string]int) *failure {
 		}
 		store.trigger = rc.a[trigH-1].ID()
 		viaValidated := rc.v2 && r.Bool()
+		// the call that is queued during the poll: a reorging submission (2 in 4), PruneBlocks at or
+		// above the poll's cursor, or a pool submission
+		mode := r.Intn(4)
+		pruneH := uint64(first + r.Intn(len(rc.a)-first+1))
 		var wg sync.WaitGroup
 		var subErr error
 		wg.Add(1)
@@ -200,9 +204,16 @@ func racing(seed uint64, rounds int, stats map[string]int) *failure {
 			case <-time.After(2 * time.Second):
 				return
 			}
-			if viaValidated {
+			switch {
+			case mode == 2:
+				cm.PruneBlocks(pruneH)
+			case mode == 3 && rc.v2:
+				_, subErr = cm.AddV2PoolTransactions(cm.Tip(), []types.V2Transaction{{ArbitraryData: []byte(fmt.Sprint("racing ", round))}})
+			case mode == 3:
+				_, subErr = cm.AddPoolTransactions([]types.Transaction{{ArbitraryData: [][]byte{[]byte(fmt.Sprint("racing ", round))}}})
+			case viaValidated:
 				subErr = cm.AddValidatedV2Blocks(rc.b, rc.bs)
-			} else {
+			default:
 				subErr = cm.AddBlocks(rc.b)
 			}
 		}()
@@ -225,8 +236,21 @@ func racing(seed uint64, rounds int, stats map[string]int) *failure {
 		wg.Wait()
 		store.armed.Store(false)
 		what := fmt.Sprintf("racing round %d (regime %s, subscriber at A%d, max %d, fork B%d..B%d submitted through %s while the poll fetched A%d)", round, chaingen.RegimeNames[rc.env.Regime], from, max, rc.forkAt+1, rc.forkAt+len(rc.b), map[bool]string{false: "AddBlocks", true: "AddValidatedV2Blocks"}[viaValidated], trigH)
+		if mode == 2 {
+			what = fmt.Sprintf("racing round %d (regime %s, subscriber at A%d, max %d, PruneBlocks(%d) called while the poll fetched A%d)", round, chaingen.RegimeNames[rc.env.Regime], from, max, pruneH, trigH)
+		} else if mode == 3 {
+			what = fmt.Sprintf("racing round %d (regime %s, subscriber at A%d, max %d, a pool submission made while the poll fetched A%d)", round, chaingen.RegimeNames[rc.env.Regime], from, max, trigH)
+		}
 		if panicked != nil {
 			return &failure{"c04-panic-concurrent", fmt.Sprintf("%s: UpdatesSince panicked: %v", what, panicked)}
+		}
+		if mode == 2 {
+			stats["racing-rounds-with-PruneBlocks-during-the-poll"]++
+		} else if mode == 3 {
+			stats["racing-rounds-with-a-pool-submission-during-the-poll"]++
+		}
+		if perr != nil && mode == 2 {
+			continue // a poll that lost the race against PruneBlocks may fail; it must not hand out a broken batch
 		}
 		if perr != nil {
 			return &failure{"c04-concurrent-error", fmt.Sprintf("%s: UpdatesSince failed: %v", what, perr)}
